@@ -60,8 +60,13 @@ func genC11(r *Rand, tier string) *Case {
 		} else if r.Chance(1, 6) {
 			cc.Steps = append([]Step{{Msgs: []pgwire.FMsg{{K: "ssl"}}}, {Msgs: []pgwire.FMsg{{K: "ssl"}}}}, cc.Steps...)
 			c.Variant = "declined-twice"
-		} else {
+		} else if r.Bool() {
 			cc.Steps = append([]Step{{Msgs: []pgwire.FMsg{{K: "ssl"}}}}, cc.Steps...)
+		} else {
+			// the client does not wait for the 'N': the startup packet travels in
+			// the same flight as the SSLRequest and must not be lost
+			cc.Steps[0].Msgs = append([]pgwire.FMsg{{K: "ssl"}}, cc.Steps[0].Msgs...)
+			c.Variant = "declined-pipelined"
 		}
 		return c
 	}
